@@ -3,6 +3,7 @@
 From Coq Require Import List Bool Arith Reals Lra Sorted.
 Import ListNotations.
 From PS Require Import Num RLemmas Valid ModelKernels ModelFuncs ModelAPI Spec SyncDefs Lem_IsiProps Lem_Spike Lem_Sync Lem_API.
+From PS Require Import Lem_WF Lem_API2 Lem_API3 Lem_API4 Lem_API5 Lem_API7 Lem_API9.
 From PS Require Lem_OrderSpec.
 Require Import PS.Props.PropTac.
 Local Open Scope R_scope.
@@ -68,6 +69,37 @@ Print Assumptions C05_multi_spike_is_profile_average.
 Theorem C05_multi_sync_is_profile_ratio : forall (eps : R) (cy : bool) (mt m : R) (iv : option (R * R)) (l : list train) (ts te : R), (2 <= length l)%nat -> Forall (wtrain ts te) l -> iv_ok ts te iv -> exists P : list dentry, spike_sync_profile_multi ROps eps cy false mt m l None = Ok P /\ spike_sync_multi ROps eps cy false mt m iv l None = rmap (fun cm : R * R => if Reqb (snd cm) 0 then 1 else fst cm / snd cm) (df_integral ROps P (iv_of iv)).
 Proof. exact sync_multi_value_is_profile_ratio. Qed.
 Print Assumptions C05_multi_sync_is_profile_ratio.
+
+(* ---- from Lem_API9.v ---- *)
+Theorem C05_isi_multi_distance_is_profile_average_idx : forall eps cy m iv l idx ts te,
+  idx_ok (length l) idx -> (2 <= msize l idx)%nat -> Forall (wtrain ts te) l -> iv_ok ts te iv ->
+  exists P, isi_profile_multi ROps eps cy false m l idx = Ok P /\
+    isi_distance_multi ROps eps cy false m iv l idx = pwc_avrg ROps P (iv_of iv).
+Proof. exact isi_multi_distance_is_profile_average_idx. Qed.
+Print Assumptions C05_isi_multi_distance_is_profile_average_idx.
+Theorem C05_spike_multi_distance_is_profile_average_idx : forall eps cy m ri iv l idx ts te,
+  idx_ok (length l) idx -> (2 <= msize l idx)%nat -> Forall (wtrain ts te) l -> iv_ok ts te iv ->
+  exists P, spike_profile_multi ROps eps cy false m ri l idx = Ok P /\
+    spike_distance_multi ROps eps cy false m ri iv l idx = pwl_avrg ROps P (iv_of iv).
+Proof. exact spike_multi_distance_is_profile_average_idx. Qed.
+Print Assumptions C05_spike_multi_distance_is_profile_average_idx.
+Theorem C05_sync_multi_value_is_profile_ratio_idx : forall eps cy mt m iv l idx ts te,
+  idx_ok (length l) idx -> (2 <= msize l idx)%nat -> Forall (wtrain ts te) l -> iv_ok ts te iv ->
+  exists P, spike_sync_profile_multi ROps eps cy false mt m l idx = Ok P /\
+    spike_sync_multi ROps eps cy false mt m iv l idx
+    = rmap (fun cm => if Reqb (snd cm) 0 then 1 else fst cm / snd cm)
+           (df_integral ROps P (iv_of iv)).
+Proof. exact sync_multi_value_is_profile_ratio_idx. Qed.
+Print Assumptions C05_sync_multi_value_is_profile_ratio_idx.
+Theorem C05_order_multi_is_profile_sums_idx : forall eps cy nz mt m l idx ts te,
+  cy = true \/ 0 < eps ->
+  idx_ok (length l) idx -> (2 <= msize l idx)%nat -> Forall (wtrain ts te) l ->
+  exists P, order_profile_multi ROps eps cy false mt m l idx = Ok P /\
+    spike_train_order_multi ROps eps cy false nz mt m l idx
+    = rmap (fun cm => if nz then (if Reqb (snd cm) 0 then 1 else fst cm / snd cm) else fst cm)
+           (df_integral ROps P (@IvNone R)).
+Proof. exact order_multi_is_profile_sums_idx. Qed.
+Print Assumptions C05_order_multi_is_profile_sums_idx.
 
 Example C05_nonvacuous : vtrain 0 1 ([1], 0, 1) /\ vtrain 0 1 ([], 0, 1) /\ vtrain 0 1 ([0; 1/2], 0, 1).
 Proof. unfold vtrain; cbn [tr_spikes tr_start tr_end fst snd]; repeat split; try lra; valid_tac. Qed.
